@@ -528,13 +528,15 @@ impl TaskEmitter {
         };
         *seq += 1;
 
-        let _ = self.sender.send(event.clone());
-        #[cfg(rip_verif)]
-        rip_kernel::verif::point("task.sent");
+        // Record before publishing (see `emit_event` in session.rs): a late subscriber subscribes
+        // first and snapshots second, so a published frame must already be in the buffer.
         let mut guard = self.events.lock().await;
         guard.push(event.clone());
         #[cfg(rip_verif)]
         rip_kernel::verif::point("task.recorded");
+        let _ = self.sender.send(event.clone());
+        #[cfg(rip_verif)]
+        rip_kernel::verif::point("task.sent");
         let _ = self.event_log.append(&event);
     }
 }
